@@ -1499,6 +1499,11 @@ class PathEval:
         if isinstance(c, tuple) and c[0] == "const":
             v = c[2]
             return ("eq", v)
+        if isinstance(c, tuple) and len(c) == 4 and c[0] == "binop":
+            # a comparison of two constants (a helper's `idx == 0` once the caller's literal argument is substituted)
+            f = self.fold_binop(c[1], c[2], c[3])
+            if isinstance(f, tuple) and f[0] == "const":
+                return ("eq", f[2])
         k = st["facts"].get(c)
         if k is not None:
             return k
